@@ -494,6 +494,18 @@ func init() {
 				rds = []int{0, 1, 2, 3, 4}
 				jmax = 160
 			}
+			if tier == "quick" {
+				// a file with an attachment and a metadata record, lexer only: fragmentation inside the attachment's
+				// fields, data and CRC
+				f := fc{6, 2, 1000, 0}
+				for jlo := 0; jlo < 64; jlo += 8 {
+					frag(f.tpl, f.cfg, f.cs, f.validate, 0, 0, "jlo", jlo, "jhi", jlo+8, "kmax", kmax)
+				}
+				for _, mr := range []int{1, 2, 3} {
+					frag(f.tpl, f.cfg, f.cs, f.validate, 0, 1, "mr", mr)
+				}
+				frag(f.tpl, f.cfg, f.cs, f.validate, 0, 2, "mr", 0)
+			}
 			for _, f := range files {
 				for _, rd := range rds {
 					if f.cfg&4 != 0 && rd != 0 {
@@ -526,7 +538,7 @@ func init() {
 			return js
 		},
 		bounds: map[string]any{
-			"quick":    map[string]any{"file": "T5 chunked (one chunk per message, CRC on), validating lexer", "readers": "lexer; non-indexed iterator; indexed iterator in file order and in log-time order", "fragmentation": "one short read at symbolic read-call index J (0..95, cells of 8; beyond the last call the run is the plain one) returning symbolic K bytes (1..9: every split of a 9-byte record header); every read limited to 1, 2, 5 bytes; final bytes delivered together with io.EOF", "io_error": "error at symbolic byte position E (cells of 16 over the whole file), delivered on its own call or together with the last good bytes: sticky for the sequential readers; for index-based reads byte E alone is unreadable (reads that do not touch it succeed, and a read that never needs it must return everything); for Messages() with the index (and on files without chunk indexes / without chunks, where it seeks back and scans) also a failure of the Seek call with symbolic index S in 0..15 (more Seek calls than the reads make)", "symbolic": "J, K, E, every field value and byte of the file"},
+			"quick":    map[string]any{"file": "T5 chunked (one chunk per message, CRC on), validating lexer; for the lexer also T6 unchunked (attachment read through the callback incl. its stored CRC, metadata)", "readers": "lexer; non-indexed iterator; indexed iterator in file order and in log-time order", "fragmentation": "one short read at symbolic read-call index J (0..95, cells of 8; beyond the last call the run is the plain one) returning symbolic K bytes (1..9: every split of a 9-byte record header); every read limited to 1, 2, 5 bytes; final bytes delivered together with io.EOF", "io_error": "error at symbolic byte position E (cells of 16 over the whole file), delivered on its own call or together with the last good bytes: sticky for the sequential readers; for index-based reads byte E alone is unreadable (reads that do not touch it succeed, and a read that never needs it must return everything); for Messages() with the index (and on files without chunk indexes / without chunks, where it seeks back and scans) also a failure of the Seek call with symbolic index S in 0..15 (more Seek calls than the reads make)", "symbolic": "J, K, E, every field value and byte of the file"},
 			"thorough": map[string]any{"files": "T1,T5,T6,T7 under 7 option sets (incl. xor codec, unchunked, non-validating)", "readers": "as quick + reverse log-time order", "fragmentation": "J over 0..159", "io_error": "both delivery forms at every position"},
 		},
 		outside:     append([]string{"a one-shot (non-sticky) error delivered together with the last bytes a ReadFull needs: io.ReadAtLeast drops it by specification", "more than one short read per run (the every-read-limited schedules cover repeated fragmentation)"}, outsideCommon...),
